@@ -7,13 +7,13 @@ META = {
              'unsubmitted task has all dependencies yielded and its type below max_parallel (exact, same thread); '
              '(b) at every gate-controlled rest point the set of launched-and-unfinished worker processes (ledger) '
              'and of tasks inside run() equals the first max_workers in-flight tasks; (c) serial: every wait() with '
-             'pending submissions executes and yields exactly one task. Distinct by (DAG, config, schedule seed); '
+             'pending submissions executes and yields exactly one task; (d) tasks whose process outlives run() (a non-daemon thread keeps it alive after the result was handed over): the lingering thread itself watches the shared event log and leaves once another task has started after its own end - a runnable task that is only started once such an unrelated process has exited is a violation (logical verdict, confirmed with a 60 s bound). Distinct by (DAG, config, schedule seed); '
              'non-trivial when at some rest/wait more tasks were in flight than max_workers or a type limit was '
              'binding.'),
     'assumptions': ['child start-up wait (20 s) expiring with enough launches is inconclusive, not violated'],
     'tiers': {
-        'quick': {'shards': 16, 'budget_s': 45, 'n_sim': 2400, 'n_real': 200},
-        'thorough': {'shards': 16, 'budget_s': 330, 'n_sim': 40000, 'n_real': 2400},
+        'quick': {'shards': 16, 'budget_s': 45, 'n_sim': 2400, 'n_real': 200, 'n_linger': 32},
+        'thorough': {'shards': 16, 'budget_s': 330, 'n_sim': 40000, 'n_real': 2400, 'n_linger': 320},
     },
 }
 
@@ -47,15 +47,94 @@ def judge(rep, scn, out):
     return queued
 
 
+def linger_case(rep, rng, timeout=20, scn=None):
+    """A task whose process outlives its run() (non-daemon thread): its slot is free as soon as its result has been
+    handed over; the runnable tasks behind it must be started without waiting for that process to exit.  The
+    lingering thread itself decides: it leaves when it sees a later start (or that everything has started) and
+    reports a timeout otherwise - a logical verdict, confirmed by a second run with a three times longer timeout."""
+    from vlab import engine
+    from vlab.dagcommon import gen_dag_scenario
+    if scn is None:
+        scn = gen_dag_scenario(rng, backend=rng.choice(['fork', 'fork', 'fork', 'spawn']), shape='wide',
+                               nmax=rng.choice([4, 5, 6]), types=(('NA', 5), ('NC', 2)), gated=False, precache=False,
+                               fresh=False, workers=(1, 2))
+        scn['free_sleep'] = [0.0, 0.01, 0.03]
+        scn['pickled_copies'] = False
+        names = list(scn['spec']['tasks'])
+        scn['spec']['requested'] = names
+        lingerers = rng.sample(names, rng.choice([1, 1, 2]))
+        scn['task_plan'] = {n: {'linger': {'total': len(names), 'timeout': timeout}} for n in lingerers}
+    else:
+        for p in scn['task_plan'].values():
+            if 'linger' in p:
+                p['linger']['timeout'] = timeout
+    scn['grace'] = 0.0
+    scn['watchdog_s'] = 4 * timeout + 60
+    out = engine.run_dag(scn, keep=True)
+    try:
+        ends = []
+        deadline = __import__('time').monotonic() + timeout + 5
+        want = len([1 for p in scn['task_plan'].values() if 'linger' in p])
+        from vlab import events
+        while __import__('time').monotonic() < deadline:
+            ends = [e for e in events.read_events(out.ctl) if e['k'] == 'linger-end']
+            if len(ends) >= want:
+                break
+            __import__('time').sleep(0.05)
+        return scn, out, ends, want
+    finally:
+        engine.cleanup(out)
+
+
+def run_linger(rep, rng):
+    scn, out, ends, want = linger_case(rep, rng)
+    wit = {'scenario': scn, 'linger': True}
+    if getattr(out, 'aborted', None) or out.exc is not None:
+        rep.inconclusive(f'linger run did not complete: {getattr(out, "aborted", None) or out.exc_info}', wit)
+        return
+    if len(ends) < want:
+        rep.inconclusive(f'only {len(ends)} of {want} lingering threads reported', wit)
+        return
+    rep.count('linger_runs')
+    rep.count('lingering_processes_observed', len(ends))
+    rep.case(['linger', scn['backend'], scn['max_workers'], sorted(scn['task_plan']), scn['sched_seed']], True)
+    if any(e['saw'] is None for e in ends):
+        # confirm: same scenario, three times the patience
+        scn2, out2, ends2, want2 = linger_case(rep, rng, timeout=60, scn=scn)
+        if len(ends2) >= want2 and any(e['saw'] is None for e in ends2):
+            starts = sorted((e['t'], e['name']) for e in out2.events if e['k'] == 'start')
+            rep.violation('runnable-held-until-unrelated-process-exit',
+                          f"{scn['backend']}, max_workers={scn['max_workers']}: the process of {[e['name'] for e in ends2 if e['saw'] is None]} "
+                          f'stayed alive after handing over its result and saw NO other task start for 60 s although '
+                          f'tasks were still waiting to be started; they started only once it had exited '
+                          f'(starts: {[n for _, n in starts]}, lingering waits: {[(e["name"], e["waited_s"]) for e in ends2]})', wit)
+        else:
+            rep.inconclusive('lingering thread timed out once but not under the longer bound: slow host', wit)
+    else:
+        rep.count('lingerers_that_saw_later_starts', sum(1 for e in ends if e['saw'] == 'later-start'))
+
+
 def run_shard(rep):
     from vlab.props.dagprop import drive
+    from vlab.dagcommon import scenario_rng
     cfg = META['tiers'][rep.tier]
     rep.require('progress_checks', 2000)
     rep.require('rests_with_queue', 50)
+    rep.require('lingerers_that_saw_later_starts', 8)
+    for j in range(rep.shard, cfg.get('n_linger', 32), rep.nshards):
+        run_linger(rep, scenario_rng(rep.seed, 'C05linger', j))
     drive(rep, 'C05', make_scn=make_scn, judge=judge, n_sim=cfg['n_sim'], n_real=cfg['n_real'],
           handles_spin='runnable-never-started')
 
 
 def replay(rep, wit):
     from vlab.props.dagprop import replay_with
+    if wit['witness'].get('linger'):
+        import random
+        rep.case('a', True)
+        rep.case('b', True)
+        scn, out, ends, want = linger_case(rep, random.Random(0), timeout=60, scn=wit['witness']['scenario'])
+        if len(ends) >= want and any(e['saw'] is None for e in ends):
+            rep.violation('runnable-held-until-unrelated-process-exit', f'lingering waits: {[(e["name"], e["saw"], e["waited_s"]) for e in ends]}', wit['witness'])
+        return
     replay_with(rep, wit, judge)
